@@ -35,6 +35,18 @@ def explore(ck):
         coin = r.choice(gen.ALL_COINS); blocks = chain_for(r, coin, T + 1)
         c = Case('beyond_T%d_s%d_e%s' % (T, s_, e_), coin).simple_layout(blocks); c.start = s_; c.end = e_; c.in_domain = False
         c.meta['cbs'] = ['csv', 'unspent']; c.meta['T'] = T; expect[c.id] = []; cases.append(c)
+    # outside the property's quantifier, for the correspondence only: rejected ranges (--start >= --end) and an index with a hole in the heights (the loop ends at the hole)
+    for T, s_, e_ in [(3, 2, 2), (3, 3, 1), (0, 0, 0)]:
+        coin = r.choice(gen.ALL_COINS); blocks = chain_for(r, coin, T + 1)
+        c = Case('rejected_T%d_s%d_e%s' % (T, s_, e_), coin).simple_layout(blocks); c.start = s_; c.end = e_; c.in_domain = False
+        c.meta['cbs'] = ['csv', 'stats']; c.meta['T'] = T; expect[c.id] = []; cases.append(c)
+    for miss in (2, 4):
+        coin = r.choice(gen.ALL_COINS); blocks = chain_for(r, coin, 7)
+        c = Case('hole_at_%d' % miss, coin); c.in_domain = False
+        for h, b in enumerate(blocks):
+            off = c.put_block(0, b.raw)
+            if h != miss: c.add_record(b, h, 0, off)
+        c.meta['cbs'] = ['csv', 'unspent']; c.meta['T'] = 6; expect[c.id] = list(range(miss)); cases.append(c)
     # high-height windows: index holds H-1..H+k, run with -s H
     for H in ([300, 16511, 2113663] if quick else [127, 128, 300, 16511, 16512, 2113663, 2113664, 13000000]):
         n = 4; coin = r.choice(gen.ALL_COINS)
@@ -97,7 +109,7 @@ def explore(ck):
         m = models[c.id]
         if m['delivered'] != expect[c.id]:
             ck.disagreement('model delivered heights differ from s..min(e,T) on ' + c.id, 'model=%s expected=%s' % (m['delivered'], expect[c.id]), c, in_domain=False)
-        if res:
+        if res and m['status'][0] == 'done':
             for cb, diffs, rr in res:
                 if cb == 'csv' and not diffs:
                     if not expect[c.id]: continue
